@@ -4,6 +4,7 @@ from __future__ import annotations
 import json
 import os
 import struct
+import select
 import subprocess
 from fractions import Fraction
 
@@ -71,6 +72,18 @@ def dec_nested(x, mode):
     return dec_num(x, mode)
 
 
+MODEL_TIMEOUT = float(os.environ.get("VERIF_MODEL_TIMEOUT", "900"))
+
+
+def _die_with_parent():
+    # PR_SET_PDEATHSIG = 1: no orphan driver keeps a core busy when a check is killed
+    try:
+        import ctypes, signal
+        ctypes.CDLL("libc.so.6").prctl(1, signal.SIGKILL)
+    except Exception:  # noqa: BLE001
+        pass
+
+
 class Driver:
     """One Lean driver process in a fixed number mode."""
 
@@ -81,13 +94,19 @@ class Driver:
         else:
             cmd = ["lake", "env", "lean", "--run", "Driver/Main.lean", mode]
         self.proc = subprocess.Popen(
-            cmd, cwd=LEAN_DIR, stdin=subprocess.PIPE, stdout=subprocess.PIPE, text=True, bufsize=1
+            cmd, cwd=LEAN_DIR, stdin=subprocess.PIPE, stdout=subprocess.PIPE, text=True, bufsize=1,
+            preexec_fn=_die_with_parent,
         )
         self.calls = 0
 
     def call(self, obj: dict) -> dict:
         self.proc.stdin.write(json.dumps(obj) + "\n")
         self.proc.stdin.flush()
+        # one response line per request; a model evaluation that does not come back is a machinery failure
+        ready, _, _ = select.select([self.proc.stdout], [], [], MODEL_TIMEOUT)
+        if not ready:
+            self.proc.kill()
+            raise ModelError(f"driver timed out after {MODEL_TIMEOUT}s on {obj.get('cmd')}")
         line = self.proc.stdout.readline()
         if not line:
             raise ModelError(f"driver died on {obj.get('cmd')}")
